@@ -473,6 +473,29 @@ fn battery(cx: &Ctx, h: &IndexerHandle, tip: usize, exp: &Exp, step: usize, full
     }
 }
 
+
+/// disk hygiene: temp-db nodes leave their directories behind when dropped (≈ 80 MB each); everything this
+/// process created under the temp dir since `base` was taken is removed between histories
+fn tmp_entries() -> std::collections::HashSet<std::path::PathBuf> {
+    std::fs::read_dir(std::env::temp_dir()).map(|d| d.filter_map(|e| e.ok().map(|e| e.path())).collect()).unwrap_or_default()
+}
+fn sweep(base: &std::collections::HashSet<std::path::PathBuf>) {
+    for e in tmp_entries() {
+        if !base.contains(&e) {
+            // `SharedBuilder::with_temp_db` keeps ONE process-wide base directory with a `db_<n>` child per node:
+            // keep the base, remove the children (no temp node is alive between histories)
+            let kids: Vec<std::path::PathBuf> = std::fs::read_dir(&e).map(|d| d.filter_map(|x| x.ok().map(|x| x.path())).collect()).unwrap_or_default();
+            if !kids.is_empty() && kids.iter().all(|k| k.file_name().map(|f| f.to_string_lossy().starts_with("db_")).unwrap_or(false)) {
+                for k in kids {
+                    let _ = std::fs::remove_dir_all(&k);
+                }
+            } else if std::fs::remove_dir_all(&e).is_err() {
+                let _ = std::fs::remove_file(&e);
+            }
+        }
+    }
+}
+
 fn flush(out: &mut Vec<Value>) {
     for v in out.drain(..) {
         println!("{}", v);
@@ -568,7 +591,9 @@ fn service(inp: &Input) {
     let mut slow_drops = 0u64;
     let (mut wait_ms, mut drop_ms) = (0u64, 0u64);
     let t_all = std::time::Instant::now();
+    let base = tmp_entries();
     'hist: for hist in &inp.hists {
+        sweep(&base);
         hists += 1;
         let scratch = Scratch::new("c18s");
         let root = scratch.path().to_path_buf();
@@ -714,6 +739,7 @@ fn service(inp: &Input) {
         drop_ms += t_drop.elapsed().as_millis() as u64;
         let _ = std::fs::remove_dir_all(&root2);
     }
+    sweep(&base);
     for e in &tool_errors {
         println!("{}", json!({"tool_error": e}));
     }
